@@ -301,10 +301,8 @@ def parse_sanitizer(stderr):
     for fm in re.finditer(r"#\d+ 0x[0-9a-f]+ in (.+?) (/[^\s:]+):(\d+)", stderr):
         fn, path = fm.group(1), fm.group(2)
         if "/bluetoe/" in path and "/verif/" not in path:
-            fn = re.sub(r"<.*", "", fn)          # drop template arguments
-            fn = re.sub(r"\(.*", "", fn)
-            fn = fn.split("::")[-1] if "::" in fn else fn
-            site = os.path.basename(path) + ":" + fn.strip()
+            # inlining decides which function name a frame carries, so only the file is stable
+            site = os.path.basename(path)
             break
     else:
         fm = re.search(r"(/[^\s:]*bluetoe/[^\s:]+):(\d+):(\d+): runtime error", stderr)
@@ -427,7 +425,8 @@ def execute(spec, tier, seed, replay=None):
             # step context belong to the family's memory-safety owner
             mine = (c["prop"] == prop) or (spec.crash_owner and not c["prop"])
             if mine:
-                key = "%s:crash:%s:%s" % (prop, c["kind"], c["site"])
+                opword = re.sub(r"[^A-Za-z0-9_]+", "_", (c["op"] or "").split(" ")[0])[:40] or "unknown"
+                key = "%s:crash:%s:%s:%s" % (prop, c["kind"], c["site"], opword)
                 add_violation(key, 1, "sanitizer/crash at step %s op=%s" % (c["step"], c["op"]), r,
                               step=c["step"], config=c["config"], extra={"report": c["report"], "op": c["op"]})
         if not r.done and not r.timed_out and not r.crashes:
